@@ -4,6 +4,7 @@ package main
 
 import (
 	"bytes"
+	"os"
 	"fmt"
 	"math/rand"
 	"sort"
@@ -124,6 +125,8 @@ func toYAML(ss []setting) string {
 	return b.String()
 }
 
+var envSet []string
+
 func run(c *harness.Ctx) {
 	zerolog.SetGlobalLevel(zerolog.Disabled)
 	nTrees := c.N(1500, 80000)
@@ -182,26 +185,57 @@ func run(c *harness.Ctx) {
 			if r.Intn(3) == 0 {
 				legacy = fmt.Sprintf("legacy%d:5052", r.Intn(10))
 			}
-			mode := r.Intn(2)
+			mode := r.Intn(4)
 			viper.Reset()
-			if mode == 0 {
-				for _, s := range ss {
-					k := s.Var
-					if s.Path != "" {
-						k = s.Path + "." + s.Var
-					}
-					viper.Set(k, s.Val)
+			for _, k := range envSet {
+				os.Unsetenv(k)
+			}
+			envSet = envSet[:0]
+			if mode >= 2 {
+				// as main.go does
+				viper.SetEnvPrefix("VOUCH")
+				viper.SetEnvKeyReplacer(strings.NewReplacer("-", "_", ".", "_"))
+				viper.AutomaticEnv()
+			}
+			var yamlPart []setting
+			sources := map[string]int{}
+			for _, s := range ss {
+				k := s.Var
+				if s.Path != "" {
+					k = s.Path + "." + s.Var
 				}
-				if legacy != "" {
+				src := mode
+				if mode == 3 {
+					src = r.Intn(4) // 0 Set, 1 YAML, 2 env, 3 default
+				}
+				sources[[]string{"set", "yaml", "env", "default"}[src]]++
+				switch src {
+				case 0:
+					viper.Set(k, s.Val)
+				case 1:
+					yamlPart = append(yamlPart, s)
+				case 2:
+					name := "VOUCH_" + strings.ToUpper(strings.NewReplacer("-", "_", ".", "_").Replace(k))
+					val := fmt.Sprint(s.Val)
+					if l, ok := s.Val.([]string); ok {
+						val = strings.Join(l, " ")
+					}
+					os.Setenv(name, val)
+					envSet = append(envSet, name)
+				default:
+					viper.SetDefault(k, s.Val)
+				}
+			}
+			if legacy != "" {
+				if mode == 1 {
+					yamlPart = append(yamlPart, setting{Path: "", Var: "beacon-node-address", Val: []string{legacy}})
+				} else {
 					viper.Set("beacon-node-address", []string{legacy})
 				}
-			} else {
-				doc := toYAML(ss)
-				if legacy != "" {
-					doc += "beacon-node-address:\n  - '" + legacy + "'\n"
-				}
+			}
+			if len(yamlPart) > 0 {
 				viper.SetConfigType("yaml")
-				if err := viper.ReadConfig(strings.NewReader(doc)); err != nil {
+				if err := viper.ReadConfig(strings.NewReader(toYAML(yamlPart))); err != nil {
 					c.Inconclusive("generated YAML did not parse: " + err.Error())
 					return
 				}
@@ -319,7 +353,7 @@ func run(c *harness.Ctx) {
 				}
 			}
 			if t < 2 {
-				c.Sample(map[string]any{"settings": ss, "legacy": legacy, "mode": []string{"viper.Set", "yaml"}[mode], "lookups": lookups})
+				c.Sample(map[string]any{"settings": ss, "legacy": legacy, "mode": []string{"viper.Set", "yaml", "env", "mixed"}[mode], "sources": sources, "lookups": lookups})
 			}
 		})
 	}
@@ -330,7 +364,7 @@ func main() {
 	harness.Main(&harness.Spec{
 		Property: "C19",
 		Level:    "exploration",
-		Rule:     "random configuration trees (depth<=5, each of 6 variables present/absent at every level, loaded through viper.Set or generated YAML) x lookup paths inside/below/beside the tree; a case is (variable, presence mask along the lookup chain, depth of the answering level, load mode); non-trivial = path has >=1 component and some level on the chain has a value",
+		Rule:     "random configuration trees (depth<=5, each of 6 variables present/absent at every level, loaded through viper.Set, generated YAML, VOUCH_* environment variables (as main.go configures viper) or a per-setting mixture incl. defaults) x lookup paths inside/below/beside the tree; a case is (variable, presence mask along the lookup chain, depth of the answering level, load mode); non-trivial = path has >=1 component and some level on the chain has a value",
 		Run:      run,
 		MinDistinct: 50,
 		Assumptions: []string{"values avoid the encodings that mean 'unset' (zero duration, empty string, empty list)", "the global viper instance is used from one goroutine"},
